@@ -7,6 +7,7 @@ package main
 
 import (
 	"context"
+	"errors"
 	"fmt"
 	"strings"
 	"time"
@@ -30,13 +31,14 @@ type cfg struct {
 	KeepAlive  bool
 	MaxRetries uint32
 	Depth      int
+	SendMayFail bool // the ping cannot always be written
 }
 
 func (c cfg) String() string {
 	if !c.KeepAlive {
 		return fmt.Sprintf("inactivity-monitor period=%v depth=%d", P, c.Depth)
 	}
-	return fmt.Sprintf("keep-alive maxRetries=%d period=%v depth=%d", c.MaxRetries, P, c.Depth)
+	return fmt.Sprintf("keep-alive maxRetries=%d period=%v depth=%d ping-send-may-fail=%v", c.MaxRetries, P, c.Depth, c.SendMayFail)
 }
 
 var deltas = []time.Duration{P / 2, P - eps, P + eps, 2*P + eps}
@@ -61,9 +63,15 @@ func scenario(c cfg) *mcx.Scenario {
 					cancelled bool
 				}
 				var pings []*ping
+				sendFailed := false
 				var mon *inactivity.Monitor[*fakeConn]
 				if c.KeepAlive {
 					ka := inactivity.NewKeepAlive(c.MaxRetries, onInactive, func(x *fakeConn, receivePong func()) (func(), error) {
+						if c.SendMayFail && vrt.Choose(2, nil) == 1 {
+							hist = append(hist, "(ping-send-fails)")
+							sendFailed = true
+							return nil, errors.New("cannot write ping")
+						}
 						p := &ping{pong: receivePong}
 						pings = append(pings, p)
 						return func() { p.cancelled = true }, nil
@@ -98,6 +106,7 @@ func scenario(c cfg) *mcx.Scenario {
 						vrt.Advance(d)
 						now := vrt.Now()
 						before, pingsBefore := closedByMonitor, len(pings)
+						sendFailed = false
 						mon.CheckInactivity(now, cc)
 						fires := now.After(last.Add(P))
 						closedNow := closedByMonitor > before
@@ -125,7 +134,7 @@ func scenario(c cfg) *mcx.Scenario {
 							} else if !closedNow && wantClose {
 								fail("keepalive-did-not-close", "not closed although %d consecutive inactivity detections went uncredited (maxRetries=%d)", fails, c.MaxRetries)
 							}
-							if !closedNow && fires && !wantClose && len(pings) != pingsBefore+1 {
+							if !closedNow && fires && !wantClose && len(pings) != pingsBefore+1 && !sendFailed {
 								fail("keepalive-no-ping-on-inactivity", "inactivity detected but %d pings were emitted at this tick", len(pings)-pingsBefore)
 							}
 							if !fires && len(pings) != pingsBefore {
@@ -173,7 +182,9 @@ func main() {
 	scs = append(scs, scenario(cfg{Depth: d + 1}))
 	for _, n := range []uint32{0, 1, 2, 3} {
 		scs = append(scs, scenario(cfg{KeepAlive: true, MaxRetries: n, Depth: d}))
+		scs = append(scs, scenario(cfg{KeepAlive: true, MaxRetries: n, Depth: d - 1, SendMayFail: true}))
 	}
+	addConnLevel(r, &scs)
 	sum := mcx.Explore(r, scs, mcx.Config{Wall: ev.Pick(r, 3*time.Minute, 20*time.Minute)})
 	mcx.Report(r, scs, sum)
 	r.Set("rule", "every history up to the depth over {recv, wait P/2, tick(+P/2), tick(+P-1ms), tick(+P+1ms), tick(+2P+1ms), pong(current ping), late pong(previous ping)} applied to the real Monitor/KeepAlive (wired as options.WithKeepAlive does) with a virtual clock; reference: tick fires iff now > last received + P; plain monitor closes iff fires; keep-alive closes exactly at a firing tick at which more than maxRetries consecutive detections are uncredited, credit = any received message (pong or other); distinct outcome = distinct history + close count")
